@@ -231,7 +231,7 @@ class DayRecord:
 
 
 FLAG_FIELDS = ("crop_mature", "crop_dead", "harvest_flag", "germination", "premat_senes", "growth_stage",
-               "growing_season", "wt_in_soil", "dap", "stage2", "yield_form")
+               "growing_season", "wt_in_soil", "dap", "stage2", "yield_form", "f_pre", "f_post", "f_pol")
 
 
 def _flags(cond):
